@@ -20,7 +20,13 @@ class AsyncioSingleTask:
                 except asyncio.CancelledError:
                     pass
 
-            self._handle = task_group._task_group.create_task(action())  # type: ignore
+            coro = action()
+            try:
+                self._handle = task_group._task_group.create_task(coro)  # type: ignore
+            except RuntimeError:
+                # The task group is shutting down, nothing to restart
+                coro.close()
+                self._handle = None
 
     async def stop(self) -> None:
         async with self._lock:
